@@ -183,6 +183,9 @@ def run_shards(pid, preamble, case_type, cases, check_fn, shard=400, timeout=900
         name, base, n = item
         rc, out = sh("ulimit -s unlimited 2>/dev/null; timeout %d coqc -Q . PT -w -all Run/%s.v" % (timeout, name),
                      cwd=COQ, timeout=timeout + 60)
+        if rc == 124:   # a loaded machine is not a violation: one more attempt with three times the budget
+            rc, out = sh("ulimit -s unlimited 2>/dev/null; timeout %d coqc -Q . PT -w -all Run/%s.v" % (3 * timeout, name),
+                         cwd=COQ, timeout=3 * timeout + 60)
         return item, rc, out
 
     n_ok, fails, logs, extras = 0, [], [], []
@@ -220,6 +223,8 @@ def run_diag(pid, preamble, case_type, cases, diag_fn, timeout=600):
                            "Definition cases : list (%s) := [" % case_type, ";\n".join(cases), "].",
                            "Eval vm_compute in (%s cases)." % diag_fn]) + "\n")
     rc, out = sh("timeout %d coqc -Q . PT -w -all Run/%s.v" % (timeout, name), cwd=COQ, timeout=timeout + 60)
+    if rc == 124:   # see run_shards
+        rc, out = sh("timeout %d coqc -Q . PT -w -all Run/%s.v" % (3 * timeout, name), cwd=COQ, timeout=3 * timeout + 60)
     for f in os.listdir(rundir):
         if f.startswith(name) and not f.endswith(".v"):
             os.remove(os.path.join(rundir, f))
